@@ -114,6 +114,7 @@ type tpAct struct {
 	tail    string // poll/uservisit: how it is spelled after the URL prefix
 	path    string // uservisit: a whole path that does NOT start with the munger's prefix ("" = prefix + tail)
 	query   string
+	doneCtx int // approve/abort: 0 = the live context, 1 = an already cancelled one, 2 = one past its deadline
 }
 
 type tpThread struct {
@@ -750,6 +751,18 @@ func (w *tpWorld) runAct(th *tpThread) string {
 		return w.httpTok(rec, th)
 	case "approve":
 		var err error
+		// (the application's context may be done already - the request of a browser that went away: the store takes
+		// no notice of it, so the decision is taken and reported as taken all the same; what the call REPORTS and what
+		// the next poll answers must agree)
+		if a.doneCtx != 0 {
+			dctx, cancel := context.WithCancel(ctx)
+			cancel()
+			if a.doneCtx == 2 {
+				dctx, cancel = context.WithDeadline(ctx, time.Unix(1, 0))
+				defer cancel()
+			}
+			ctx = dctx
+		}
 		switch {
 		case a.role == "poll" && a.nilCavs:
 			err = svc.DischargePoll(ctx, a.secret)
@@ -763,6 +776,11 @@ func (w *tpWorld) runAct(th *tpThread) string {
 		return hitmiss(err == nil, "ok", "err")
 	case "abort":
 		var err error
+		if a.doneCtx != 0 {
+			dctx, cancel := context.WithCancel(ctx)
+			cancel()
+			ctx = dctx
+		}
 		if a.role == "poll" {
 			err = svc.AbortPoll(ctx, a.secret, tpMsg(a.msg))
 		} else {
@@ -1169,6 +1187,10 @@ func (w *tpWorld) genAct(maxFlows int) *tpAct {
 		role := pick(r, []string{"poll", "user"})
 		w.o.count("act.approve." + role)
 		a := &tpAct{kind: "approve", role: role}
+		if r.Chance(1, 5) {
+			a.doneCtx = 1 + r.Intn(2)
+			w.o.count("approve.done-context")
+		}
 		w.genSecret(a, role, "api")
 		for a.secret == "" { // Discharge*/Abort* treat "" as "the other secret was given"
 			w.genSecret(a, role, "api")
@@ -1179,6 +1201,10 @@ func (w *tpWorld) genAct(maxFlows int) *tpAct {
 		role := pick(r, []string{"poll", "user"})
 		w.o.count("act.abort." + role)
 		a := &tpAct{kind: "abort", role: role, msg: r.Intn(4)}
+		if r.Chance(1, 5) {
+			a.doneCtx = 1
+			w.o.count("abort.done-context")
+		}
 		w.genSecret(a, role, "api")
 		for a.secret == "" {
 			w.genSecret(a, role, "api")
